@@ -276,10 +276,10 @@ func (s *c21Sat) check(fr *c21Frame, e ast.Expr, use core.Point, depth int) c21S
 func c21CheckSaturating(c *core.Ctx, view *c21View, ap c21Apply, stamp string) {
 	construct := stamp + "|remaining time saturates"
 	s := &c21Sat{view: view}
-	vd := s.check(ap.Fr, ap.CS.Call.Args[0], ap.CS.Pt, 5)
+	vd := s.check(ap.Fr, ap.Wait, ap.Pt, 6)
 	pos := vd.pos
 	if !pos.IsValid() {
-		pos = ap.CS.Pos()
+		pos = ap.Pos
 	}
 	switch {
 	case vd.ok:
